@@ -153,6 +153,9 @@ def run(ctx):
                 helper_ok.add(u)
         ctx.check(users <= homes | helper_ok, "R16.3", "%s|only-with-total" % variant, "%s is bumped only alongside a write of the total weight" % variant, detail=str(sorted(users - homes - helper_ok)))
 
+    for s_ in M.sites + M.helper_sites:
+        ctx.check(s_["kind"] != "unclassified" and s_.get("exact", True), "R16.6", "%s|total-written-exactly" % s_["fn"].name,
+                  "every write of the total weight applies exactly the intended amount (the space the decisions and statistics rely on is the true total)", s_["fn"].where(s_["bb"], s_["idx"]))
     # ---- R16.4 ----------------------------------------------------------------------------------
     rej = SM.bumps_of("KeysRejected")
     charge_fns = {s["fn"].name for s in M.inc_sites if not (s["amount"][0] == "binop" and s["amount"][1] == "Sub")}
